@@ -744,8 +744,12 @@ func agentCanon(sb *strings.Builder, ai int, a *Agent, infos map[[stun.Transacti
 				// the per-candidate cache of validated source addresses is implementation state too
 				var cache []string
 				if cb := candidateBaseOf(c); cb != nil {
-					cb.remoteCandidateCaches.Range(func(k, _ any) bool {
-						cache = append(cache, fmt.Sprint(k))
+					cb.remoteCandidateCaches.Range(func(k, v any) bool {
+						to := "?"
+						if rc, ok := v.(Candidate); ok {
+							to = rc.Type().String() + "/" + rc.addr().String()
+						}
+						cache = append(cache, fmt.Sprint(k)+"="+to)
 
 						return true
 					})
